@@ -380,6 +380,9 @@ func (d *Dynamic) PrevItem() vxfw.Command {
 }
 
 func (d *Dynamic) ensureScroll() {
+	// A scroll that has not been drawn yet would move the cursor out of
+	// view again
+	d.scroll.pending = 0
 	if d.cursor > d.scroll.top {
 		d.scroll.wantsCursor = true
 		return
